@@ -149,6 +149,15 @@ def r3_id_range(ctx):
             lo, hi = ops[0].int_value(True), ops[1].int_value(True)
             ok = lo is not None and hi is not None and hi <= -4095 and lo >= -(2 ** 31)
             why = "Range(%s, %s)" % (lo, hi)
+        elif o.kind == "const" and "std::ops::Range" in (o.op.const.get("ty") or ""):
+            # a named constant range: decode (start, end) of the evaluated value
+            raw = decode_bytes(o.const_bytes() or "")
+            if len(raw) >= 8:
+                lo = int.from_bytes(raw[0:4], "little", signed=True)
+                hi = int.from_bytes(raw[4:8], "little", signed=True)
+                incl = "RangeInclusive" in o.op.const.get("ty")
+                ok = lo <= hi and lo >= -(2 ** 31) and (hi <= -4096 if incl else hi <= -4095)
+                why = "%s(%s, %s) [constant]" % ("RangeInclusive" if incl else "Range", lo, hi)
     # the id used as key is the gen_range value, untouched
     ko = T.origins_of_arg(entry[0], 1) if entry else []
     okk = bool(ko) and all(o.kind == "call" and o.term is gr[0] for o in ko)
@@ -224,6 +233,15 @@ def r5_all_failures_via_table(ctx):
         ok = se[0].bb in cfg.edge_targets_reachable(errs) and se[0].bb not in cfg.edge_targets_reachable(oks)
         eo = T.origins_of_arg(se[0], 0)
         ok = ok and bool(eo) and all(o.kind == "param" and o.detail == 1 for o in eo)
+    if not ok:
+        # combinator form: self.map_or_else(store_error, <success conversion>)  -- the first function is applied to the Err payload
+        for t in rb.calls("std::result::Result::<T, E>::map_or_else"):
+            a0 = T.origins_of_arg(t, 0)
+            f1 = t.args[1].fn() if len(t.args) > 1 and t.args[1].is_const else None
+            if f1 == SE and a0 and all(o.kind == "param" and o.detail == 1 for o in a0):
+                ro_ = T.return_origins(rb)
+                if ro_ and all(o.kind == "call" and o.term is t for o in ro_):
+                    ok = True
     (out.append(holds("C16.R5", "Result::into_c_return:err-arm", rb.where(), "Err(e) -> store_error(e)")) if ok else
      out.append(violated("C16.R5", "Result::into_c_return:err-arm", rb.where(), "the Err arm does not store the error in the table")))
     # non-negative producers: (), i32 passthrough (lengths), OwnedFd -> into_raw_fd
@@ -285,7 +303,32 @@ def r6_errno_table(ctx):
     miss = [x for x in need if x not in calls]
     dflt = [t for t in cb.calls("std::option::Option::<T>::unwrap_or")]
     ok0 = bool(dflt) and dflt[0].args[1].int_value(True) == 0
-    if not miss and ok0:
+    okm = False
+    if miss or not ok0:
+        # explicit form: match err.kind().errno() { Some(e) => e.unsigned_abs(), None => 0 }
+        for blk in cb.blocks:
+            for i, st in enumerate(blk.stmts):
+                if st.kind == "assign" and st.rv["k"] == "agg" and st.rv.get("adt") == "capi::error::CError":
+                    names = st.rv.get("fields") or []
+                    if "saved_errno" not in names:
+                        continue
+                    op = st.rv_operands()[names.index("saved_errno")]
+                    os_ = T.origins_of_operand(cb, blk.idx, i, op)
+                    seen_abs = seen_zero = False
+                    other = []
+                    for o in os_:
+                        if o.kind == "call" and (o.term.callee or "").endswith("unsigned_abs"):
+                            a = T.origins_of_arg(o.term, 0)
+                            if a and all(x.kind == "call" and x.term.callee == "error::ErrorKind::errno" for x in a):
+                                seen_abs = True
+                            else:
+                                other.append(o)
+                        elif o.kind == "const" and o.const_int() == 0:
+                            seen_zero = True
+                        else:
+                            other.append(o)
+                    okm = seen_abs and seen_zero and not other
+    if (not miss and ok0) or okm:
         out.append(holds("C16.R6", "CError::from:saved_errno", cb.where(), "saved_errno = |kind().errno()| or 0"))
     else:
         out.append(violated("C16.R6", "CError::from:saved_errno", cb.where(), "saved_errno derivation changed (missing %s, default-0=%s)" % (miss, ok0)))
